@@ -109,7 +109,7 @@ def fam_polyline(R, npts, closed, smooth_closing=False, concrete=None):
             cr = cross(d0, d1)
             if smooth_closing and closed and i == m - 1:
                 cx.assume(cr.e == 0, dot(d0, d1).e > 0)          # exactly smooth closing joint
-            else:
+            elif not concrete:
                 cx.assume((cr * cr).e >= (n0 * n1 * 0.0025).e)   # |sin| >= 0.05
         segs = [Line(a, b) for a, b in edges]
         p = Path(*segs)
@@ -131,6 +131,8 @@ def fam_polyline(R, npts, closed, smooth_closing=False, concrete=None):
             R.unexpected(ctx, 'unexpected %s %r' % (kind, val))
             continue
         V, mj, tg, segs, (rk, q) = val
+        if R.paths <= 2:
+            R.witness(ctx, 'path-condition')          # not vacuous
 
         def cex(m):
             pts = [mcval(m, v) for v in V]
@@ -206,6 +208,9 @@ def families(tier):
             ('closed-triangle-concrete', M, 'fam_polyline', {'npts': 3, 'closed': True, 'concrete': [0j, 4 + 0j, 1 + 3j]}),
             ('closed-smooth-closing-concrete', M, 'fam_polyline', {'npts': 4, 'closed': True, 'smooth_closing': True,
                                                                    'concrete': [0j, 4 + 0j, 2 + 3j, -2 + 0j]})]
+    # very shallow corners (1e-3 and 3e-3 rad: far above the 1e-5 'already smooth' tolerance, far below the |sin| >= 0.05 of the symbolic families)
+    fams.append(('open-shallow-corner-1mrad', M, 'fam_polyline', {'npts': 3, 'closed': False, 'concrete': [0j, 4 + 0j, 8 + 0.004j]}))
+    fams.append(('open-shallow-corner-3mrad', M, 'fam_polyline', {'npts': 3, 'closed': False, 'concrete': [0j, 4 + 0j, 8 - 0.012j]}))
     # the elbow construction reads unit_tangent at segment ends (degenerate ends included): shared with C15
     fams.append(('tangent-at-degenerate-end', 'vf.props.c15', 'fam_singular', {'case': 'cubic.t0.P0=P1=P2'}))
     if tier == 'thorough':
